@@ -31,6 +31,28 @@ theorem commit_prefix_resolvable (c : Cache) (d : Disk) (f : Nat) (root : Hash) 
     ∀ p, p <+: ws → AllRes (applyWrites c d p) :=
   fun _ hp => (commit_prefix_facts ha hci hcs hw hp).1
 
+/-- Go randomises map iteration per `range` statement: a node the walk reaches
+    twice may be walked in two different child orders within one commit.
+    `WalksN c f root ws` admits an order of its own for **every visit**; the
+    executable `walk` is one instance (`walk_is_a_visit_order`).  The crash-point
+    guarantees hold for all of them. -/
+theorem any_visit_order_prefix_closed (c : Cache) (d : Disk) (f : Nat) (root : Hash) (ws : List Hash)
+    (hcl : Closed d) (hci : CacheInv c d) (hw : WalksN c f root ws) :
+    ∀ p, p <+: ws → Closed (applyWrites c d p) := by
+  have g := walksN_good c d hci f root ws hw
+  exact writes_closed ws [] d hcl (fun _ h => h) (by simp) g.cached (g.post [])
+
+theorem any_visit_order_prefix_resolvable (c : Cache) (d : Disk) (f : Nat) (root : Hash) (ws : List Hash)
+    (ha : AllRes d) (hci : CacheInv c d) (hcs : Consistent c d) (hw : WalksN c f root ws) :
+    ∀ p, p <+: ws → AllRes (applyWrites c d p) ∧ Extends d (applyWrites c d p) := by
+  have g := walksN_good c d hci f root ws hw
+  intro p hp
+  exact ⟨writes_allRes ws [] d ha hcs (fun _ h => h) (by simp) g.cached (g.post []) p hp,
+    (writes_extends p d hcs).1⟩
+
+theorem walk_is_a_visit_order (c : Cache) (f : Nat) (h : Hash) (ws : List Hash)
+    (hw : walk c f h = some ws) : WalksN c f h ws := walk_walksN c f h ws hw
+
 /-- the physical batches are exactly the Put sequence cut into pieces (nothing
     lost, nothing reordered), the last piece being the final `batch.Write()`. -/
 theorem batches_cover_writes (c : Cache) (ws : List Hash) :
@@ -221,6 +243,19 @@ exist only because the leaf callback ran. -/
 
 /-- its commit walk is the post-order `1,2,3,4,5` -/
 example : walk exS5.cache 6 5 = some [1, 2, 3, 4, 5] := by decide
+
+/-- hypotheses of `any_visit_order_*`: the other map order at node `5` (code `4` before storage root `3`) -/
+example : WalksN exS5.cache 3 5 [4, 1, 2, 3, 5] := by
+  unfold WalksN
+  refine ⟨[4, 3], [[4], [1, 2, 3]], by intro x; simp; exact Or.comm, ?_, rfl⟩
+  refine All2.cons ?_ (All2.cons ?_ All2.nil)
+  · unfold WalksN
+    exact ⟨[], [], by intro x; simp, All2.nil, rfl⟩
+  · unfold WalksN
+    refine ⟨[], [[1], [2]], by intro x; simp, ?_, rfl⟩
+    refine All2.cons ?_ (All2.cons ?_ All2.nil)
+    · unfold WalksN; exact ⟨[], [], by intro x; simp, All2.nil, rfl⟩
+    · unfold WalksN; exact ⟨[], [], by intro x; simp, All2.nil, rfl⟩
 
 /-- hypotheses of `commit_prefix_closed` / `commit_prefix_resolvable` / `crash_point_resolvable` -/
 example : AllRes exS5.disk ∧ CacheInv exS5.cache exS5.disk ∧ Consistent exS5.cache exS5.disk ∧
